@@ -13,6 +13,7 @@ From CG Require Import Model.Tpl.
 From CG Require Import Model.Quote.
 From CG Require Import Spec.ShellDQ.
 From CG Require Import Model.Tables.
+From CG Require Import Model.EmitBash.
 (* add new Require lines above this line *)
 Require Import ExtrOcamlBasic ExtrOcamlString.
 Extraction Language OCaml.
@@ -34,5 +35,6 @@ Separate Extraction
   Tables.all_tables
   Tables.valid_orders
   Tables.isomorphic_to
+  EmitBash.script_of_dfa
   (* add new roots above this line *)
   Prelude.pow2.
